@@ -79,7 +79,7 @@ func (w *aclWorld) apply(rec *consensusproto.RawRecordWithId) {
 func newKeyChange() list.ReadKeyChangePayload {
 	priv, _, err := crypto.GenerateRandomEd25519KeyPair()
 	must0(err)
-	return list.ReadKeyChangePayload{MetadataKey: priv, ReadKey: crypto.NewAES()}
+	return list.ReadKeyChangePayload{MetadataKey: regPriv(priv), ReadKey: newAES()}
 }
 
 var (
@@ -122,9 +122,11 @@ func buildAclWorld() *aclWorld {
 	w.apply(w.wrap(must(ob().BuildReadKeyChange(newKeyChange()))))
 	// invites
 	inv1 := must(ob().BuildInvite())
+	regPriv(inv1.InviteKey)
 	inv1Rec := w.wrap(inv1.InviteRec)
 	w.apply(inv1Rec)
 	inv2 := must(ob().BuildInviteAnyone(list.AclPermissionsWriter))
+	regPriv(inv2.InviteKey)
 	inv2Rec := w.wrap(inv2.InviteRec)
 	w.apply(inv2Rec)
 	// pending join requests j1 (to accept), j2 (to decline), j3 (to cancel)
@@ -149,8 +151,12 @@ func buildAclWorld() *aclWorld {
 	add("inviteJoin", k1, must(k1.acl.RecordBuilder().BuildInviteJoinWithoutApprove(list.InviteJoinPayload{InviteKey: inv2.InviteKey, Permissions: list.AclPermissionsWriter, Metadata: []byte("k1")})), k1, w1)
 	add("accountRemove", owner, must(ob().BuildAccountRemove(list.AccountRemovePayload{Identities: []crypto.PubKey{w2.keys.SignKey.GetPublic()}, Change: newKeyChange()})), w1, w2)
 	add("readKeyChange", owner, must(ob().BuildReadKeyChange(newKeyChange())), w1, j1)
-	add("invite", owner, must(ob().BuildInvite()).InviteRec, owner, w1)
-	add("inviteAnyone", owner, must(ob().BuildInviteAnyone(list.AclPermissionsReader)).InviteRec, owner, w1)
+	invV := must(ob().BuildInvite())
+	regPriv(invV.InviteKey)
+	add("invite", owner, invV.InviteRec, owner, w1)
+	invA := must(ob().BuildInviteAnyone(list.AclPermissionsReader))
+	regPriv(invA.InviteKey)
+	add("inviteAnyone", owner, invA.InviteRec, owner, w1)
 	add("inviteRevoke", owner, must(ob().BuildInviteRevoke(inv1Rec.Id)), owner, w1)
 	add("inviteChange", owner, must(ob().BuildInviteChange(list.InviteChangePayload{IniviteRecordId: inv2Rec.Id, Permissions: list.AclPermissionsReader})), owner, w1)
 	n2 := w.freshMember()
